@@ -244,7 +244,9 @@ func genC11CSS(r *core.Rand) c11Host {
 	enc := strings.NewReplacer("%", "%25", " ", "%20", "\"", "%22", "#", "%23", "<", "%3C", ">", "%3E", "'", "%27", "(", "%28", ")", "%29")
 	for i := 0; i < n; i++ {
 		mt := r.Pick([]string{"image/svg+xml", "text/x-custom", "text/less"})
-		payload := r.Pick([]string{"<svg xmlns=\"http://www.w3.org/2000/svg\"><rect  width=\"1\"  height=\"1\"/></svg>", "a { color : red }", "plain   text"})
+		payload := r.Pick([]string{"<svg xmlns=\"http://www.w3.org/2000/svg\"><rect  width=\"1\"  height=\"1\"/></svg>", "a { color : red }", "plain   text",
+			// long payloads: the stub's answer is shorter, so the rewritten URI is used
+			"f(x) and 'more'" + strings.Repeat(" ", 40), "<svg xmlns=\"http://www.w3.org/2000/svg\"><g transform=\"rotate(45)\">" + strings.Repeat("<rect  width=\"1\"/>", 6) + "</g></svg>"})
 		q := r.Pick([]string{"", "\"", "'"})
 		fmt.Fprintf(&sb, ".c%d{background:url(%sdata:%s,", i, q, mt)
 		slots = append(slots, c11Slot{Kind: "cssdatauri", Mediatype: mt, Params: "", Payload: payload, Offset: sb.Len()})
@@ -486,29 +488,31 @@ func c11OutputSlots(lang, out string) ([]string, string) {
 			}
 		}
 	case "css":
-		rest := out
-		for {
-			i := strings.Index(rest, "url(")
-			if i < 0 {
-				break
-			}
-			rest = rest[i+4:]
-			j := strings.IndexByte(rest, ')')
-			if j < 0 {
-				return nil, "unterminated url("
-			}
-			u := strings.Trim(rest[:j], "\"'")
-			if q := rest[0]; (q == '"' || q == '\'') && strings.IndexByte(rest[1:], q) >= 0 {
-				k := strings.IndexByte(rest[1:], q)
-				u = rest[1 : 1+k]
-				j = 1 + k
+		// read the URLs back with the independent CSS tokenizer (an unquoted URL may not contain quotes,
+		// parentheses or white space)
+		toks, lerr := cssTokens(out)
+		if lerr != "" {
+			return nil, "css output does not tokenize: " + lerr
+		}
+		for _, t := range nestFunctions(toks) {
+			u := ""
+			switch {
+			case t.K == 'u':
+				u = t.S
+			case t.K == 'f' && strings.EqualFold(t.S, "url"):
+				for _, a := range t.Args {
+					if a.K == 's' {
+						u = a.S
+					}
+				}
+			default:
+				continue
 			}
 			p, ok := rfc2397Decode([]byte(u))
 			if !ok || !p.validEnc {
 				return nil, "data URI in the output does not decode: " + u
 			}
 			slots = append(slots, "cssdatauri:"+string(p.payload))
-			rest = rest[j:]
 		}
 	case "svg":
 		evs, err := xmlTokenize(out)
